@@ -91,3 +91,9 @@ claim("C12",
       "Graph data are not compared under mirroring (the enthalpy offsets of the curves are not related by a simple map).",
       "bounded-exhaustive metamorphic exploration: all generators of the transformation group applied to all base problems",
       "DESIGN.md section 4 C12")
+
+claim("C14",
+      "Deviation-bounded exhaustive exploration: 18 named degenerate-but-legal input shapes (single stream of each kind, only hot, only cold, latent only, zero contributions, duplicate names in one and in two zones, unused and inactive utilities, a utility inside the range, balanced problem, value-with-unit numbers, explicit zone tree, nested labels, three zones) x ALL option assignments with <=1 (quick) / <=2 (thorough) deviations from the defaults over 7 wired boolean options and 10 numeric end-of-range values, plus every multiset of <=2 lattice streams x {defaults, each boolean flipped}: no exception, output re-validates and round-trips through JSON, all numbers finite, one DI record per zone of the returned tree, every reported temperature (pinch temperatures of every record, graph ordinates) inside the input envelope, second identical call identical.",
+      "Excluded and stated: DO_TURBINE_WORK (configuration commented out), the two heat-pump targeting options (stochastic optimisers), area targeting with non-positive contributions (C15's precondition). One known finding: DO_INDIRECT_PROCESS_TARGETING=True raises for every input.",
+      "deviation-bounded exhaustive configuration x input-shape enumeration on the real service (bound iterated 0,1,2)",
+      "DESIGN.md section 4 C14")
